@@ -44,6 +44,11 @@ theorem all_writers_store_allowed : ∀ s ∈ PV.Generated.C38.sites, s.safe = t
 thread may be ending: no code resets it to None once the object exists (table regenerated from the source) -/
 theorem auth_handler_never_cleared : ∀ s ∈ PV.Generated.C38.handlerSites, s.safe = true := by decide
 
+/-- `channel_events` is shared by the transport thread (reply handlers) and the threads inside `open_channel`: every
+mutation of it lies inside a `self.lock` region, so a reply arriving while a caller gives up cannot make either thread
+raise KeyError (table regenerated from the source) -/
+theorem channel_events_mutated_under_lock : ∀ s ∈ PV.Generated.C38.channelEventMutations, s.safe = true := by decide
+
 /-- the table is not empty and contains the run() ladder -/
 theorem run_ladder_in_table :
     (PV.Generated.C38.sites.filter fun s => s.file == "transport.py" && s.func == "run").length = 4 := by
